@@ -47,7 +47,7 @@ func (c *caseCtx) violate(key, what string, diffs []string) {
 
 var samples, xferSamples atomic.Int64
 
-func runCase(r *ev.Run, idx int, counters *[4]atomic.Int64) {
+func runCase(r *ev.Run, idx int, counters *[5]atomic.Int64) {
 	name := fmt.Sprintf("store-%d", idx)
 	rng := r.Rand(name)
 	c := &caseCtx{r: r, name: name}
@@ -103,6 +103,9 @@ func runCase(r *ev.Run, idx int, counters *[4]atomic.Int64) {
 	g.Weights = map[kvlab.OpKind]int{kvlab.OpPut: 10, kvlab.OpDelete: 2, kvlab.OpPrefixAppend: 12, kvlab.OpPrefixRemove: 2, kvlab.OpImport: 4}
 	g.ImportLeases = true
 	g.LeaseTokens = []uint64{1, 2, 1 << 62, 1<<63 - 1, kvlab.FarFuture, uint64(1700000000) * 1_000_000_000, rng.Uint64() >> 1}
+	if idx%4 == 3 {
+		g.BulkMax = 513 // the source also received whole key ranges: the hand-over below moves hundreds of keys
+	}
 	for i := 20 + rng.Intn(40); i > 0; i-- {
 		if _, ok := step(st, m, g.Next(), "populate "+src); !ok {
 			return
@@ -173,6 +176,19 @@ func runCase(r *ev.Run, idx int, counters *[4]atomic.Int64) {
 	expKeys := append([][]byte{}, keys...)
 	rng.Shuffle(len(expKeys), func(i, j int) { expKeys[i], expKeys[j] = expKeys[j], expKeys[i] })
 	expKeys = expKeys[:1+rng.Intn(len(expKeys))]
+	if g.BulkOps > 0 {
+		var bulk []string
+		for k := range m.Snapshot(true) {
+			if strings.HasPrefix(k, "bulk/") {
+				bulk = append(bulk, k)
+			}
+		}
+		sort.Strings(bulk)
+		for _, k := range bulk {
+			expKeys = append(expKeys, []byte(k))
+		}
+		counters[4].Add(int64(len(bulk)))
+	}
 	ex, ok := step(st, m, kvlab.Op{Kind: kvlab.OpExport, Keys: expKeys}, "export "+src)
 	if !ok {
 		return
@@ -282,7 +298,7 @@ func main() {
 		r.Finish()
 	}
 	n := r.Pick(90, 1500)
-	var counters [4]atomic.Int64
+	var counters [5]atomic.Int64
 	jobs := make(chan int)
 	var wg sync.WaitGroup
 	workers := min(runtime.GOMAXPROCS(0), 16)
@@ -307,5 +323,6 @@ func main() {
 	r.Count("exports", counters[1].Load())
 	r.Count("imports_into_empty_store", counters[2].Load())
 	r.Count("removekeys_calls", counters[3].Load())
+	r.Count("bulk_family_keys_handed_over", counters[4].Load())
 	r.Finish()
 }
